@@ -458,6 +458,25 @@ func checkOneInterceptedParse(t *fw.T, src string, rd *gen.Rendered, s *icStack,
 		}
 		t.Count("parses_with_statement_steps_counted_against_the_tree", 1)
 	}
+	// ... and the same for expressions: every expression a statement holds directly (expression statement, initialiser,
+	// return value, condition, for-header parts) is the result of at least one expression step
+	if s.nExpr > 0 && passKind['e'] && run.out.Prog != nil {
+		nFull := 0
+		t.Guard("count full expressions", wit, func() { nFull = countFullExpressions(run.out.Prog) })
+		per := map[int]int{}
+		for _, e := range run.events {
+			if e.kind == 'e' {
+				per[e.idx]++
+			}
+		}
+		for i := 0; i < s.nExpr; i++ {
+			if per[i] < nFull {
+				t.Violate("expression-steps-not-offered", fmt.Sprintf("errors=%v", len(run.out.Errors) > 0), fmt.Sprintf("expression interceptor #%d ran %d times, but the statements of the returned tree hold %d expressions (each the result of an expression step; %d errors reported): %q", i, per[i], nFull, len(run.out.Errors), clip(src, 160)), wit())
+				return false
+			}
+		}
+		t.Count("parses_with_expression_steps_counted_against_the_tree", 1)
+	}
 	if s.nTok > 0 && rep <= 0 {
 		// the lexer driven directly: every request for a token - also the requests at and after end of input - goes
 		// through every token interceptor exactly once (a plugin may turn end-of-input into synthetic tokens)
@@ -998,6 +1017,53 @@ func countListStatements(root any) int {
 				f := v.Field(i)
 				if f.Kind() == reflect.Slice && f.Type().Elem() == stmtIface {
 					n += f.Len()
+				}
+				walk(f)
+			}
+		case reflect.Slice:
+			for j := 0; j < v.Len(); j++ {
+				walk(v.Index(j))
+			}
+		}
+	}
+	walk(reflect.ValueOf(root))
+	return n
+}
+
+var fullExprFields = map[string]bool{"ExpressionStatement.Expression": true, "LetStatement.Value": true, "LetExpression.Value": true, "ReturnStatement.ReturnValue": true,
+	"IfStatement.Condition": true, "WhileStatement.Condition": true, "ForStatement.Condition": true, "ForStatement.Update": true, "ForStatement.Init": true}
+
+// countFullExpressions: number of non-nil expressions that statements hold directly (a `let` in a for header counts
+// through its initialiser only).
+func countFullExpressions(root any) int {
+	n := 0
+	seen := 0
+	var walk func(v reflect.Value)
+	walk = func(v reflect.Value) {
+		seen++
+		if seen > 3_000_000 {
+			return
+		}
+		switch v.Kind() {
+		case reflect.Interface, reflect.Ptr:
+			if !v.IsNil() {
+				walk(v.Elem())
+			}
+		case reflect.Struct:
+			tn := v.Type().Name()
+			if tn == "Token" || tn == "Position" {
+				return
+			}
+			for i := 0; i < v.NumField(); i++ {
+				ft := v.Type().Field(i)
+				if !ft.IsExported() {
+					continue
+				}
+				f := v.Field(i)
+				if fullExprFields[tn+"."+ft.Name] && !isNilValue(f) {
+					if _, isLet := f.Interface().(*ast.LetExpression); !isLet {
+						n++
+					}
 				}
 				walk(f)
 			}
